@@ -726,7 +726,9 @@ impl Area for H2Wire {
             let line: Result<String, ()> = catch_unwind(AssertUnwindSafe(|| -> String {
                 match w[0] {
                     "new" => {
-                        det = Some(H2FloodDetector::new(H2FloodConfig::default()));
+                        let cfg = H2FloodConfig::default();
+                        cfg_vals = cfg_values(&cfg);
+                        det = Some(H2FloodDetector::new(cfg));
                         dead = false;
                         vage = 0;
                         "new".into()
@@ -830,10 +832,9 @@ impl Area for H2Wire {
                             if s.settings.len() > 64 {
                                 r.oracle.push(("settings-entry-cap-exceeded".into(), op.clone()));
                             }
-                            if buf.len() % 6 != 0 && h.flags == 0 {
-                                // RFC 9113 §6.5: a length that is not a multiple of 6 MUST be FRAME_SIZE_ERROR
-                                r.oracle.push(("first-settings-length-not-multiple-of-6-accepted".into(), op.clone()));
-                            }
+                            // (a length that is not a multiple of 6 is accepted by this public
+                            // function; whether the *connection* accepts it as first SETTINGS is
+                            // observed on a live worker by the h2conn binary, finding F24)
                         }
                         let l = body_line(res, &buf);
                         r.tags.push(format!("settings_frame:{}", l.split(' ').next().unwrap_or("")));
@@ -986,19 +987,7 @@ impl Area for H2Wire {
                             v[0] as u32, v[1] as u32, v[2] as u32, v[3] as u32, v[4] as u32, v[5] as u32, v[6] as u32,
                             v[7], v[8], v[9], v[10] as u32, 65536, 128,
                         );
-                        cfg_vals = [
-                            cfg.max_rst_stream_per_window as u64,
-                            cfg.max_ping_per_window as u64,
-                            cfg.max_settings_per_window as u64,
-                            cfg.max_empty_data_per_window as u64,
-                            cfg.max_window_update_stream0_per_window as u64,
-                            cfg.max_continuation_frames as u64,
-                            cfg.max_glitch_count as u64,
-                            cfg.max_rst_stream_lifetime,
-                            cfg.max_rst_stream_abusive_lifetime,
-                            cfg.max_rst_stream_emitted_lifetime,
-                            cfg.max_header_list_size as u64,
-                        ];
+                        cfg_vals = cfg_values(&cfg);
                         let d = H2FloodDetector::new(cfg);
                         let l = format!("f {}", cstr(&flood::counters(&d)));
                         det = Some(d);
@@ -1170,6 +1159,22 @@ impl Area for H2Wire {
         }
         "model-mismatch".into()
     }
+}
+
+fn cfg_values(cfg: &H2FloodConfig) -> [u64; 11] {
+    [
+        cfg.max_rst_stream_per_window as u64,
+        cfg.max_ping_per_window as u64,
+        cfg.max_settings_per_window as u64,
+        cfg.max_empty_data_per_window as u64,
+        cfg.max_window_update_stream0_per_window as u64,
+        cfg.max_continuation_frames as u64,
+        cfg.max_glitch_count as u64,
+        cfg.max_rst_stream_lifetime,
+        cfg.max_rst_stream_abusive_lifetime,
+        cfg.max_rst_stream_emitted_lifetime,
+        cfg.max_header_list_size as u64,
+    ]
 }
 
 fn cstr(c: &[u64; 13]) -> String {
